@@ -35,7 +35,6 @@ inductive Err where
   | beforeCase (loc : Nat)                    -- "Statements illegal between SELECT CASE and CASE"
   | illegalInType (loc : Nat)
   | fieldOutside (loc : Nat)                  -- "Field declaration outside TYPE block"
-  | caseAfterElse (loc : Nat)                 -- "CASE after CASE ELSE"
   deriving Repr, DecidableEq
 
 def owner (sub : Nat) : Nat := if sub ≤ 1 then 0 else 6
@@ -46,13 +45,6 @@ def ifCheck : List Item → Bool → Option Err
   | .mid sub loc :: r, seenElse =>
     if seenElse then some (.elseAfterElse loc) else ifCheck r (decide (sub = 0))
   | _ :: r, seenElse => ifCheck r seenElse
-
-/-- SelectBlock.create_block after its first clause: CASE ELSE is the last clause (as repaired) -/
-def selCheck : List Item → Bool → Option Err
-  | [], _ => none
-  | .mid sub loc :: r, seenElse =>
-    if seenElse then some (.caseAfterElse loc) else selCheck r (decide (sub = 3))
-  | _ :: r, seenElse => selCheck r seenElse
 
 def typeCheck : List Item → Option Err
   | [] => none
@@ -65,7 +57,7 @@ def closeCheck (kind : Nat) (body : List Item) : Option Err :=
   else if kind = 6 then
     match body with
     | [] => none
-    | .mid sub _ :: r => selCheck r (decide (sub = 3))     -- the first clause may be CASE ELSE (as repaired)
+    | .mid _ _ :: _ => none          -- the first clause may be CASE ELSE (as repaired); clauses after CASE ELSE are accepted
     | .field loc :: _ => some (.beforeCase loc)
     | .other loc :: _ => some (.beforeCase loc)
   else if kind = 3 then typeCheck body
@@ -99,7 +91,7 @@ def Tok.loc : Tok → Nat
   | .start _ l | .stop _ l | .mid _ l | .field l | .plain l => l
 
 def Err.loc : Err → Nat
-  | .endWithoutStart _ l | .expected _ l | .midWithout _ l | .notClosed _ l | .elseAfterElse l | .beforeCase l | .illegalInType l | .fieldOutside l | .caseAfterElse l => l
+  | .endWithoutStart _ l | .expected _ l | .midWithout _ l | .notClosed _ l | .elseAfterElse l | .beforeCase l | .illegalInType l | .fieldOutside l => l
 
 def countStart (k : Nat) : List Tok → Nat
   | [] => 0
